@@ -11,6 +11,7 @@ extern "C" {
 
 /* provided by glue_misc.c (main.c is not linked) */
 void *xmalloc(size_t n);
+void vg_free(void *p);
 
 /* ---- return codes of lbzip2 (src/common.h) that the glue passes through */
 #define VG_OK 0
@@ -34,6 +35,7 @@ int vg_collect(void *e, const uint8_t *buf, size_t len, size_t *left);
 uint32_t vg_enc_nblock(void *e);
 const uint8_t *vg_enc_block(void *e);
 int vg_enc_rle_state(void *e);
+uint32_t vg_enc_finish_rle(void *e, uint32_t *crc);   /* pending run flushed as encode() would; returns nblock */
 size_t vg_encode(void *e, uint32_t *crc);   /* finishes the block; returns its size in bytes */
 void vg_transmit(void *e, void *buf);        /* buf: (size + 3) / 4 * 4 + 4 bytes */
 
